@@ -1,7 +1,8 @@
 """C15 A preimage is released only for a fully and correctly paid invoice.
 
 spec/InvoiceRegistry: the exit-hop settlement logic (NotifyExitHopHtlc first time / replay, SettleHodlInvoice,
-CancelInvoice, MPP auto-release timers, the interceptor client's CancelSet, block height) over two invoices of seven
+CancelInvoice, MPP auto-release timers, the interceptor client's answers - CancelSet and a modified amount, to first
+calls and to replays -, block height) over two invoices of seven
 kinds, HTLCs of five payload classes (legacy, MPP, AMP, keysend, blinded path) and 3-4 circuit keys whose concrete
 (short channel id, HTLC id) values follow one of six patterns (confirmed / alias scids >= 2^63, the int64 boundary,
 2^64-1, large HTLC ids, keys differing in one component only).
@@ -14,7 +15,11 @@ Parts of the executed/validated behaviours (the first component of a violation k
   replay    general mix (InvoiceRegistryGen Focus="all")
   holdsets  hold invoices whose MPP / blinded-path sets lose shards (MPP timeout, CancelSet) before a retry completes
             them, then SettleHodlInvoice / CancelInvoice (Focus="holdsets")
-  free      seeded free-running driver with concurrent blocks
+  ampsets   AMP invoices whose sets complete and settle while the invoice stays open, then CancelInvoice, CancelSet
+            for one set id, MPP timeouts, replays and late shards meet settled and accepted sets (Focus="ampsets")
+  icept     the interceptor client's answers: CancelSet / a modified amount (AmountPaid) for first-time HTLCs and for
+            calls that replay an HTLC already recorded as accepted, settled or canceled (Focus="icept")
+  free      seeded free-running driver with concurrent blocks (replays there carry interceptor answers, too)
 In every part the projection compared is the invoice READ BACK FROM THE STORE after each event; besides the comparison
 with the model (Conform*) the trace spec evaluates the property's clauses about recorded state on that projection
 (StoreResAgree, StoreAmtPaidExact, StoreStatesAgree, StoreForward).
@@ -35,7 +40,8 @@ HARNESS = ["invoices/c15_test.go"]
 D1_KEY = "replay:keysend-expiry-precheck"
 
 # (k1, k2, NC, Amts, MaxEvents): closure of the model for that pair of invoice kinds (MaxEvents = 0: all reachable
-# states; measured with 4 workers: quick set 0.12M-0.51M generated / 4k-12k distinct states, 9-25 s each; thorough adds
+# states; measured with 4 workers: quick set 0.12M-0.51M generated / 4k-12k distinct states, 9-25 s each - with the
+# interceptor answers of builder b15d (MaParams, Replay(c, ic)): 0.15M-0.65M generated / 3.7k-12.1k distinct; thorough adds
 # regular+hold and noaddr+holdna with 3 circuits and all four amounts: 2.9M / 62k and 3.3M / 77k, 3.5-4.5 min each.
 # amp+regular with 3 circuits does not close within the budget (> 9M generated): bounded to 5 events there)
 FULL = "{3, 2, 4, 5}"
@@ -46,7 +52,8 @@ MC_THOROUGH = MC_QUICK + [("noaddr", "holdna", 3, HALF, 0), ("amp", "regular", 2
                           ("regular", "regular", 3, HALF, 0), ("keysend", "holdna", 3, HALF, 0),
                           ("amp", "amp", 2, FULL, 0), ("keysend", "amp", 2, FULL, 0), ("holdna", "amp", 2, FULL, 0),
                           ("amp", "regular", 3, HALF, 5)]
-PARTS = {"trace": "replay", "hold": "holdsets", "free": "free"}
+PARTS = {"trace": "replay", "hold": "holdsets", "amps": "ampsets", "icept": "icept", "free": "free"}
+SEQ_KINDS = ("trace", "hold", "amps", "icept")
 
 
 def q(s):
@@ -70,7 +77,7 @@ def split_traces(recs):
 
 
 def compact(r):
-    keep = {k: r[k] for k in ("a", "th", "c", "k", "pl", "h", "ad", "amt", "tot", "exp", "set", "good", "cs", "ht")
+    keep = {k: r[k] for k in ("a", "th", "c", "k", "pl", "h", "ad", "amt", "tot", "exp", "set", "good", "cs", "ma", "ht")
             if r.get(k) not in (0, "", "none", None)}
     if r.get("a") == "Reset":
         keep["kp"] = r.get("kp")
@@ -323,11 +330,96 @@ def new_part_controls(ck, recs, quirk):
         raise Inconclusive("no hold invoice with an earlier canceled shard was settled in the holdsets part")
 
 
+def followup_controls(ck, recs, quirk):
+    """Negative controls of the ampsets / icept parts (same principle as new_part_controls)."""
+    ctl = ck.cov["negative_controls"]
+
+    def run_ctl(name, bad, what):
+        p = os.path.join(ck.out, "control_%s.ndjson" % name)
+        core.write_ndjson(p, bad)
+        v = validate_seq(ck, p, quirk, "control_%s" % name)
+        if v["ok"]:
+            raise Inconclusive("negative control (%s) accepted: trace validation is not binding" % name)
+        ctl.append(dict(mutation=what, rejected_by=v["invariant"], at_line=v["line"]))
+
+    # 1. a replay under the interceptor's CancelSet of an HTLC recorded as settled / accepted answered with a failure
+    done = set()
+    for st in ("kv", "sql"):
+        for tr in split_traces(recs[("icept", st)]):
+            for i, r in enumerate(tr):
+                if i == 0 or r["a"] != "Replay" or r["cs"] != 1 or r["res"] not in ("settle", "accept"):
+                    continue
+                name = "icept_replay_%s" % r["res"]
+                if name in done:
+                    continue
+                bad = copy.deepcopy(tr)
+                bad[i]["res"] = "fail"
+                bad[i]["why"] = "invoice no longer open" if r["res"] == "settle" else "external validation failed"
+                run_ctl(name, bad, "%s store: replay under CancelSet at line %d answered '%s' turned into a failure" % (
+                    st, i + 1, r["res"]))
+                done.add(name)
+        if len(done) == 2:
+            break
+    if len(done) < 2:
+        raise Inconclusive("replays under CancelSet were not executed in both classes (%s)" % sorted(done))
+    # 2. an HTLC recorded with the interceptor's amount: the store shows the wire amount instead
+    done = False
+    for tr in split_traces(recs[("icept", "kv")]):
+        for i, r in enumerate(tr):
+            if i == 0 or r["a"] != "Notify" or not r["ma"] or r["ma"] == r["amt"] or r["res"] not in ("accept", "settle"):
+                continue
+            hit = [(k, r["c"] - 1) for k in range(2) if r["inv"][k]["h"][r["c"] - 1]["st"] != "none"]
+            if not hit:
+                continue
+            bad = copy.deepcopy(tr)
+            k, d = hit[0]
+            for x in bad[i:]:
+                x["inv"][k]["h"][d]["amt"] = r["amt"]
+            run_ctl("icept_amount", bad, "HTLC at line %d recorded with the wire amount %d instead of the interceptor's %d" % (
+                i + 1, r["amt"], r["ma"]))
+            done = True
+            break
+        if done:
+            break
+    if not done:
+        raise Inconclusive("no HTLC with an interceptor-modified amount was recorded in the icept part")
+    # 3. CancelInvoice of an open AMP invoice with a settled set (the real code refuses): the store shows the
+    #    settled HTLCs canceled and the invoice canceled from there on
+    done = False
+    for tr in split_traces(recs[("amps", "sql")]):
+        kinds = (tr[0]["k1"], tr[0]["k2"])
+        for i, r in enumerate(tr):
+            if i == 0 or r["a"] != "Cancel" or r["res"] != "err" or kinds[r["k"] - 1] != "amp":
+                continue
+            x = r["inv"][r["k"] - 1]
+            if x["st"] != "open" or not any(h["st"] == "settled" for h in x["h"]):
+                continue
+            bad = copy.deepcopy(tr)
+            bad[i]["res"], bad[i]["err"] = "ok", ""
+            for y in bad[i:]:
+                z = y["inv"][r["k"] - 1]
+                z["st"] = "canceled"
+                for h in z["h"]:
+                    if h["st"] in ("settled", "accepted"):
+                        h["st"] = "canceled"
+            run_ctl("amps_cancel", bad, "CancelInvoice at line %d of an AMP invoice with a settled set 'succeeds' and the "
+                    "store shows its settled HTLCs canceled" % (i + 1))
+            done = True
+            break
+        if done:
+            break
+    if not done:
+        raise Inconclusive("no CancelInvoice of an AMP invoice with a settled set in the ampsets part")
+
+
 def class_counts(recs):
     """Measured coverage of the behaviour classes (for the evidence and as vacuity guard)."""
     out = dict(blinded_htlcs={}, cancel_set_events=0, key_patterns={}, htlc_state_changes_chan_ge_2_63={"kv": 0, "sql": 0},
                htlc_state_changes_htlcid_ge_2_32={"kv": 0, "sql": 0}, hold_settled_with_canceled_shard=0,
-               hold_canceled_with_canceled_shard=0, accepted_after_canceled_shard=0, legacy_with_total=0)
+               hold_canceled_with_canceled_shard=0, accepted_after_canceled_shard=0, legacy_with_total=0,
+               replay_with_cancelset={}, replay_with_modified_amount={}, modified_amount_recorded=0,
+               amp_sets_settled=0, amp_cancel_with_settled_set=0, amp_cancelset_beside_settled_set=0,
+               amp_cancel_with_accepted_set=0)
     for (kind, st), rs in recs.items():
         for tr in split_traces(rs):
             kcs = tr[0].get("ck") or []
@@ -341,6 +433,34 @@ def class_counts(recs):
                     out["legacy_with_total"] += 1
                 if i == 0 or r["a"] in ("Par",) or r["th"] != 0:
                     continue
+                prev = tr[i - 1]["inv"]
+                if r["a"] == "Replay" and (r.get("cs") == 1 or r.get("ma")):
+                    was = [h["st"] for x in prev for h in [x["h"][r["c"] - 1]] if h["st"] != "none"]
+                    if was:
+                        if r.get("cs") == 1:
+                            out["replay_with_cancelset"][was[0]] = out["replay_with_cancelset"].get(was[0], 0) + 1
+                        if r.get("ma"):
+                            out["replay_with_modified_amount"][was[0]] = out["replay_with_modified_amount"].get(was[0], 0) + 1
+                if r["a"] in ("Notify", "Replay") and r.get("ma") and r["ma"] != r["amt"] and r["res"] in ("accept", "settle") \
+                        and any(x["h"][r["c"] - 1]["st"] == "none" for x in prev) \
+                        and any(x["h"][r["c"] - 1]["st"] != "none" and x["h"][r["c"] - 1]["amt"] == r["ma"] for x in r["inv"]):
+                    out["modified_amount_recorded"] += 1
+                kinds = (tr[0]["k1"], tr[0]["k2"])
+                for k in range(2):
+                    if kinds[k] != "amp":
+                        continue
+                    pst = [h["st"] for h in prev[k]["h"]]
+                    nst = [h["st"] for h in r["inv"][k]["h"]]
+                    if "settled" in nst and "settled" not in pst:
+                        out["amp_sets_settled"] += 1
+                    if r["a"] == "Cancel" and r["k"] == k + 1 and prev[k]["st"] == "open":
+                        if "settled" in pst:
+                            out["amp_cancel_with_settled_set"] += 1
+                        elif "accepted" in pst:
+                            out["amp_cancel_with_accepted_set"] += 1
+                    if r["a"] == "Notify" and r.get("cs") == 1 and r["pl"] == "amp" and "settled" in pst \
+                            and any(a == "accepted" and b == "canceled" for a, b in zip(pst, nst)):
+                        out["amp_cancelset_beside_settled_set"] += 1
                 for k in range(2):
                     x = r["inv"][k]
                     for d, h in enumerate(x["h"]):
@@ -418,14 +538,23 @@ def run(ck):
     hfiles = ck.generate(SPEC, "InvoiceRegistryGen", "InvoiceRegistryGen.cfg", 260 if thorough else 70, 16,
                          constants={"MaxLen": 12, "Focus": q("holdsets"), "NC": 4, "MaxNow": 6}, name="gen_hold", timeout=1200)
     hsched = os.path.dirname(hfiles[0])
+    # AMP invoices with settled / accepted sets that are then canceled, time out, are replayed or joined
+    afiles = ck.generate(SPEC, "InvoiceRegistryGen", "InvoiceRegistryGen.cfg", 150 if thorough else 70, 16,
+                         constants={"MaxLen": 12, "Focus": q("ampsets"), "NC": 4, "MaxNow": 6}, name="gen_amps", timeout=1200)
+    asched = os.path.dirname(afiles[0])
+    # the interceptor client's answers (CancelSet, modified amount) to first-time and replayed HTLCs
+    ifiles = ck.generate(SPEC, "InvoiceRegistryGen", "InvoiceRegistryGen.cfg", 150 if thorough else 70, 16,
+                         constants={"MaxLen": 12, "Focus": q("icept"), "NC": 4, "MaxNow": 6}, name="gen_icept", timeout=1200)
+    isched = os.path.dirname(ifiles[0])
 
     # ---------------------------------------------------------------- (c) execution on the real code
     res = ck.go_test("./invoices/", "^TestVerifC15(Replay|Free)$", HARNESS,
-                     env={"VERIF_SCHED": "trace=%s,hold=%s" % (sched, hsched), "VERIF_STORES": "kv,sql",
+                     env={"VERIF_SCHED": "trace=%s,hold=%s,amps=%s,icept=%s" % (sched, hsched, asched, isched),
+                          "VERIF_STORES": "kv,sql",
                           "VERIF_RUNS": 250 if thorough else 60},
-                     name="exec", timeout=1500, extra_overlay=extra, race=thorough)
+                     name="exec", timeout=3000 if thorough else 1500, extra_overlay=extra, race=thorough)
     paths = {(kind, st): os.path.join(res["dir"], "%s_%s.ndjson" % (kind, st))
-             for kind in ("trace", "hold", "free") for st in ("kv", "sql")}
+             for kind in SEQ_KINDS + ("free",) for st in ("kv", "sql")}
     if res["rc"] != 0 or not all(os.path.exists(p) for p in paths.values()):
         raise Inconclusive("executor failed:\n" + res["out"][-4000:])
     recs = {k: core.read_ndjson(p) for k, p in paths.items()}
@@ -438,7 +567,7 @@ def run(ck):
         ck.violation("divergence:keysend-replay", "KV and SQL stores disagree on the keysend replay probe: %s" % quirk)
     nviol = 0
     for st in ("kv", "sql"):
-        for kind, fn in (("trace", validate_seq), ("hold", validate_seq), ("free", validate_par)):
+        for kind, fn in [(x, validate_seq) for x in SEQ_KINDS] + [("free", validate_par)]:
             rs = recs[(kind, st)]
             if kind == "trace":      # the probe has been judged above
                 rs = [r for tr in split_traces(rs)[1:] for r in tr]
@@ -456,6 +585,7 @@ def run(ck):
     if nviol == 0:
         negative_controls(ck, recs[("trace", "kv")], recs[("free", "kv")], quirk["kv"])
         new_part_controls(ck, recs, quirk["kv"])
+        followup_controls(ck, recs, quirk["kv"])
         # vacuity guards: the classes the check claims to cover were really executed
         if classes["htlc_state_changes_chan_ge_2_63"]["sql"] < 5 or classes["htlc_state_changes_chan_ge_2_63"]["kv"] < 5:
             raise Inconclusive("too few HTLC state changes under circuit keys with channel id >= 2^63: %s" % classes)
@@ -463,13 +593,20 @@ def run(ck):
             raise Inconclusive("hold-set class hardly reached: %s" % classes)
         if sum(classes["blinded_htlcs"].get(x, 0) for x in ("accept", "settle")) < 5:
             raise Inconclusive("blinded-path class hardly reached: %s" % classes)
+        rc = classes["replay_with_cancelset"]
+        if rc.get("settled", 0) < 2 or rc.get("accepted", 0) < 2:
+            raise Inconclusive("replays of recorded HTLCs under an interceptor CancelSet hardly reached: %s" % classes)
+        if classes["modified_amount_recorded"] < 3:
+            raise Inconclusive("HTLCs recorded with an interceptor-modified amount hardly reached: %s" % classes)
+        if classes["amp_cancel_with_settled_set"] < 2 or classes["amp_sets_settled"] < 4:
+            raise Inconclusive("AMP invoices with settled sets hardly reached / canceled: %s" % classes)
 
     # ---------------------------------------------------------------- evidence
     distinct, changing = set(), 0
     for (kind, st), rs in recs.items():
         for tr in split_traces(rs):
             sig = [(r["a"], r["th"], r["c"], r["k"], r["pl"], r["h"], r["ad"], r["amt"], r["tot"], r["exp"] - r["ht"],
-                    r["set"], r["good"], r["cs"], r["res"], r["why"]) for r in tr]
+                    r["set"], r["good"], r["cs"], r["ma"], r["res"], r["why"]) for r in tr]
             if any(r["res"] in ("settle", "accept", "ok") for r in tr):
                 distinct.add(core.sha(str((tr[0]["k1"], tr[0]["k2"], tr[0]["kp"], sig))))
     ck.cov["distinct_nontrivial"] = len(distinct)
@@ -477,7 +614,9 @@ def run(ck):
                       "the circuit-key pattern drawn per behaviour; HTLCs of the classes legacy/MPP/blinded path/AMP/keysend, "
                       "parameters 55% acceptable / 15% acceptable but already expired / 8% CancelSet by the interceptor client / "
                       "22% from the full product), a second generation focused on hold invoices whose sets lose shards (MPP "
-                      "timeout, CancelSet) before a retry completes them, plus seeded free-running histories with concurrent "
+                      "timeout, CancelSet) before a retry completes them, a third focused on AMP invoices whose sets settle and are then "
+                      "canceled / time out / are replayed, a fourth on the interceptor client's answers (CancelSet, modified "
+                      "amount) to first-time and replayed HTLCs, plus seeded free-running histories with concurrent "
                       "blocks of two links; each executed on the KV and on the SQLite store, the projection read back from the "
                       "store after every event; distinct = distinct (kinds, key pattern, event, parameters, answer) sequences "
                       "with at least one accept/settle/successful API call")
@@ -492,6 +631,12 @@ def run(ck):
     hr = split_traces(recs[("hold", "sql")])
     ck.cov["samples"] += [dict(store="sql", part="holdsets", kinds=[t[0]["k1"], t[0]["k2"]], kp=t[0]["kp"],
                                events=[compact(r) for r in t[1:7]]) for t in hr[:1]]
+    for kind, st in (("amps", "kv"), ("icept", "sql")):
+        tt = [t for t in split_traces(recs[(kind, st)])
+              if any(r["a"] == "Replay" and r["cs"] == 1 and r["res"] in ("settle", "accept") for r in t)
+              or any(r["a"] == "Cancel" and r["res"] == "err" for r in t)]
+        ck.cov["samples"] += [dict(store=st, part=PARTS[kind], kinds=[t[0]["k1"], t[0]["k2"]], kp=t[0]["kp"],
+                                   events=[compact(r) for r in t[1:8]]) for t in tt[:1]]
     fr = split_traces(recs[("free", "sql")])
     ck.cov["samples"] += [dict(store="sql", driver="free", kinds=[t[0]["k1"], t[0]["k2"]], events=[compact(r) for r in t[1:6]]) for t in fr[:1]]
     ck.cov["trusted_base"] = ["TLC 1.8.0", "CommunityModules Json",
@@ -505,7 +650,7 @@ def run(ck):
         "a circuit key is used by one link (one hodl channel) and a replay repeats the HTLC's original parameters",
         "a replay of a circuit key that never reached the invoice is a fresh evaluation (no verdict is remembered for it)",
         "FinalCltvRejectDelta=4, invoice FinalCltvDelta=6, HtlcHoldDuration=30s, AcceptKeySend=true, AcceptAMP=false; the HTLC "
-        "interceptor client only ever answers CancelSet (never a modified amount)",
+        "interceptor client answers CancelSet and/or AmountPaid (never an error, never disconnects mid-call)",
         "invoice expiry watcher kept quiet (own clock, no block notifications)",
         "a blinded-path invoice is a regular/hold invoice whose payment address is used as path id; blinded HTLCs carry no MPP record",
         "CancelSet is sent only with an unambiguous invoice reference (for an address/path id indexed for no invoice the KV "
